@@ -13,23 +13,23 @@
 EXTENDS Notation, Json, IOUtils
 Recs == ndJsonDeserialize(IOEnv.TRACE)
 NRec == Len(Recs)
-VARIABLES l, cache
-vars == <<l, cache>>
+VARIABLES l
+vars == <<l>>
 Ev == Recs[l]
 PosOf(p) == [b |-> p.b, turn |-> p.turn, rights |-> p.rights, ep |-> p.ep]
 SeqSet(s) == { s[j] : j \in 1..Len(s) }
 Bad(why, x) == PrintT(ToJson([bad |-> l, why |-> why, x |-> x]))
-Init == l = 1 /\ cache = << >>
+Init == l = 1
+\* (the cache is not carried as a state variable: a map that grows with the trace makes validation
+\* quadratic; the earlier query that shared the key is looked up only when an answer is rejected)
+EarlierUnderSameKey ==
+  LET js == { j \in 1..(l - 1) : Recs[j].key = Ev.key /\ Recs[j].side = Ev.side /\ Recs[j].what = Ev.what /\ Recs[j].pos # Ev.pos }
+  IN IF js = {} THEN <<>> ELSE PosKey(PosOf(Recs[CHOOSE j \in js : \A i \in js : j <= i].pos))
 Step ==
   /\ l <= NRec
-  /\ \E k \in {<<Ev.key, Ev.side, Ev.what>>} : \E p \in {PosKey(PosOf(Ev.pos))} :
-       /\ (IF SeqSet(Ev.long) = SeqSet(Ev.fresh) /\ Len(Ev.long) = Len(Ev.fresh) THEN TRUE
-           ELSE Bad("a long-lived generator answered differently from a brand-new one",
-                    [what |-> Ev.what,
-                     sharedKeyWith |-> IF k \in DOMAIN cache /\ cache[k] # p THEN cache[k] ELSE <<>>,
-                     thisPosition |-> p]))
-       /\ cache' = IF k \in DOMAIN cache THEN cache
-                   ELSE [x \in DOMAIN cache \cup {k} |-> IF x = k THEN p ELSE cache[x]]
+  /\ (IF SeqSet(Ev.long) = SeqSet(Ev.fresh) /\ Len(Ev.long) = Len(Ev.fresh) THEN TRUE
+      ELSE Bad("a long-lived generator answered differently from a brand-new one",
+               [what |-> Ev.what, sharedKeyWith |-> EarlierUnderSameKey, thisPosition |-> PosKey(PosOf(Ev.pos))]))
   /\ l' = l + 1
 Spec == Init /\ [][Step]_vars
 AllConsumed == IF TLCGet("stats").diameter = NRec + 1 THEN TRUE
